@@ -116,7 +116,7 @@ func genBrokenValid(t *rapid.T) *pbsubstreams.Modules {
 	pb := g.PB()
 	i := rapid.IntRange(0, len(pb.Modules)-1).Draw(t, "victim")
 	m := pb.Modules[i]
-	switch rapid.IntRange(0, 22).Draw(t, "break") { // 17..22: nothing broken, the request fields do the work
+	switch rapid.IntRange(0, 23).Draw(t, "break") { // 18..23: nothing broken, the request fields do the work
 	case 0:
 		m.Kind = nil
 	case 1:
@@ -175,6 +175,8 @@ func genBrokenValid(t *rapid.T) *pbsubstreams.Modules {
 		if len(m.Inputs) > 1 {
 			m.Inputs = append(m.Inputs[1:], m.Inputs[0])
 		}
+	case 17: // a block filter that names no module
+		m.BlockFilter = &pbsubstreams.Module_BlockFilter{Module: "", Query: &pbsubstreams.Module_BlockFilter_QueryString{QueryString: rapid.SampledFrom([]string{"k0", ""}).Draw(t, "emptyfq")}}
 	case 16: // a second params input
 		m.Inputs = append(m.Inputs, &pbsubstreams.Module_Input{Input: &pbsubstreams.Module_Input_Params_{Params: &pbsubstreams.Module_Input_Params{Value: "k0"}}})
 	}
